@@ -19,7 +19,7 @@ from srctools.vpk import VPK
 
 PROP = 'C13'
 LEVEL = 'exploration'
-RUNS = {'quick': 60000, 'thorough': 600000}
+RUNS = {'quick': 60000, 'thorough': 6000000}
 BATCH = {'quick': 150, 'thorough': 1500}
 BUDGET_S = {'quick': 70.0, 'thorough': 1500.0}
 RULE = ('one run = one operation history (3-40 steps) over a pool of <=8 ASCII names (empty folder / empty extension '
